@@ -578,15 +578,10 @@ pub fn run_c13() -> Outcome {
     let mut diff_note: Option<serde_json::Value> = None;
     let result = (|| -> simkit::Check {
         for i in 0..nexec {
-            let tape = if i == 0 {
-                Tape::replay(vec![])
-            } else {
-                Tape::generate(ch("c13.exec_seed", u32::MAX) as u64 | ((i as u64) << 32))
-            };
             let sh = shared.clone();
             let mode = ExecMode { faults: false, companions: if i == 0 { 0 } else { companions }, use_warm_cache: use_http && i >= 1 && (i == 1 || chance("c13.warm_cache", 1, 2)) };
             let verbose = simkit::with_ctx(|c| c.verbose);
-            let rep = run_sub(tape, verbose, move || execute(sh, mode, stack_budget, nthreads));
+            let rep = simkit::runner::run_sub_nested("c13.exec", i as u64, i == 0, verbose, move || execute(sh, mode, stack_budget, nthreads));
             for (k, v) in &rep.probes {
                 simkit::probe_add(k, *v);
             }
@@ -868,10 +863,9 @@ pub fn run_c03() -> Outcome {
     let mem_budget: isize = (256 << 20)
         + (1 + companions as isize) * (16 * 1024 * stack_budget as isize + 4096 * (world.dump.len() + sym_total) as isize);
     // hard cap: a runaway allocation aborts the worker, the supervisor attributes it to this run
-    let tape = Tape::generate(ch("c03.exec_seed", u32::MAX) as u64);
     let sh = shared.clone();
     let verbose = simkit::with_ctx(|c| c.verbose);
-    let rep = run_sub(tape, verbose, move || {
+    let rep = simkit::runner::run_sub_nested("c03.exec", 0, false, verbose, move || {
         simkit::alloc::set_cap(4usize << 30);
         execute(sh, ExecMode { faults: true, companions, use_warm_cache: false }, stack_budget, nthreads)
     });
